@@ -406,12 +406,16 @@ ares_status_t ares_cookie_validate(ares_query_t            *query,
   }
 
   if (resp_cookie && resp_cookie_len > 8) {
-    /* Make sure we record that we successfully received a cookie response */
-    cookie->state = ARES_COOKIE_SUPPORTED;
-    memset(&cookie->unsupported_ts, 0, sizeof(cookie->unsupported_ts));
-
-    /* If client cookie hasn't been rotated, save the returned server cookie */
+    /* Only learn from a response to the client cookie currently in use.  The
+     * cookie may have been rotated or cleared since the request was sent (e.g.
+     * by a cookie-less response to an older request); marking the server as
+     * supporting cookies then would leave us in the SUPPORTED state without a
+     * client cookie, and the all-zero value would be sent as one. */
     if (memcmp(cookie->client, req_cookie, sizeof(cookie->client)) == 0) {
+      /* Make sure we record that we successfully received a cookie response */
+      cookie->state = ARES_COOKIE_SUPPORTED;
+      memset(&cookie->unsupported_ts, 0, sizeof(cookie->unsupported_ts));
+
       cookie->server_len = resp_cookie_len - 8;
       memcpy(cookie->server, resp_cookie + 8, cookie->server_len);
     }
